@@ -23,7 +23,7 @@ from __future__ import annotations
 
 import ast
 
-from .loader import AnalysisError, norm
+from .loader import AnalysisError, norm, is_logging_stmt
 
 MSG = '<message>'
 
@@ -161,6 +161,8 @@ class MiniEval:
                 self.block(st.body if self.ev(st.test) else st.orelse)
             elif isinstance(st, ast.Assign) and len(st.targets) == 1:
                 self.assign(st.targets[0], self.ev(st.value))
+            elif is_logging_stmt(st):
+                continue
             elif isinstance(st, ast.Expr) and isinstance(st.value, ast.Constant):
                 continue
             elif isinstance(st, ast.Expr) and isinstance(st.value, ast.Call) and \
